@@ -104,6 +104,44 @@ fn extra_builders(tier: Tier) -> Vec<(String, DetBuilder)> {
             ("predict_proba".into(), arr2(&m.predict_proba(&probe))),
         ])
     })));
+    for (tag, seeded) in [("default-seed", false), ("seed-7", true)] {
+        v.push((format!("gmm-random-init-{tag}"), Box::new(move || {
+            use linfa_clustering::GmmInitMethod;
+            let ds = DatasetBase::from(big_blobs(9, 400, 2));
+            let m = if seeded {
+                GaussianMixtureModel::params_with_rng(3, rand_xoshiro::Xoshiro256Plus::seed_from_u64(7)).init_method(GmmInitMethod::Random).max_n_iterations(40).fit(&ds)
+            } else {
+                GaussianMixtureModel::params(3).init_method(GmmInitMethod::Random).max_n_iterations(40).fit(&ds)
+            };
+            match m {
+                Ok(m) => Ok(vec![("weights".into(), fbs(m.weights().iter())), ("means".into(), arr2(m.means()))]),
+                // whether the fit converges is part of what must be reproducible
+                Err(e) => Ok(vec![("fit-error".into(), format!("{e}"))]),
+            }
+        })));
+    }
+    v.push(("gaussian-nb-incremental-many-classes".into(), Box::new(|| {
+        // incremental fits with several classes and a visible smoothing term: the running statistics
+        // are kept per class in a hash map
+        let d = make_data(41, 240, 3, false);
+        let y = Array1::from_shape_fn(240, |i| (d.blob[i] * 5 + i % 3) * 11);
+        let params = linfa_bayes::GaussianNb::<f64, usize>::params().var_smoothing(0.05);
+        let mut model = None;
+        for k in 0..6 {
+            let lo = k * 40;
+            let ds = Dataset::new(d.x.slice(ndarray::s![lo..lo + 40, ..]).to_owned(), y.slice(ndarray::s![lo..lo + 40]).to_owned());
+            model = params.fit_with(model, &ds).map_err(es)?;
+        }
+        let m = model.ok_or("no model")?;
+        let p: Array1<usize> = m.predict(&zoo::probe(5, 40, 3, false));
+        let img = serde_json::to_string(&serde_json::to_value(&m).map_err(es)?).map_err(es)?;
+        Ok(vec![("predict".into(), format!("{:?}", p.to_vec())), ("serde-image".into(), img)])
+    })));
+    v.push(("tree-features-list".into(), Box::new(|| {
+        let d = make_data(13, 300, 6, false);
+        let m = linfa_trees::DecisionTree::params().max_depth(Some(5)).fit(&Dataset::new(d.x.clone(), d.ycls.clone())).map_err(es)?;
+        Ok(vec![("features".into(), format!("{:?}", m.features()))])
+    })));
     v.push(("gmm-default-seed".into(), Box::new(move || {
         let ds = DatasetBase::from(big_blobs(8, 800, 2));
         let m = GaussianMixtureModel::params(3).fit(&ds).map_err(es)?;
